@@ -444,7 +444,8 @@ fn check_script(rep: &mut Report, script: &[String], property: Option<&str>, dir
             for (h, l) in rslots.iter().enumerate() {
                 if *l && (h + i) % 2 == 0 {
                     let r: &mut TextResource = store.get_mut(TextResourceHandle::new(h)).unwrap();
-                    r.set_filename(&format!("res{}.txt", h));
+                    // (plain text, or a STAM JSON resource file)
+                    if (h / 2 + i / 3) % 2 == 0 { r.set_filename(&format!("res{}.txt", h)); rep.count("json:include:resource-as-text"); } else { r.set_filename(&format!("res{}.resource.stam.json", h)); rep.count("json:include:resource-as-json"); }
                     marked += 1;
                 }
             }
